@@ -17,7 +17,7 @@ RULE = ("(a) every sorted label multiset (size bound) over 0..11 x resolution {1
         "radius {0,1} x every ordered pair of 15 windows; (e) S2: multi-query worlds on 3 references x peaksCount {1,2,3,5}: the seeds "
         "refined are the best-scoring peaks over all references and strands, best first; (d) every list of <= 5 peak heights over {1,2,3} split over <= 3 correlations x count 1..5; "
         "non-trivial = (a) window cuts a label off / negative start, (b) radius > 0 and vector has a 1, (c) all, (d) ties or count < peaks")
-ASSUMPTIONS = ["integer label coordinates", "createPeaks is driven with synthetic find_peaks property arrays"]
+ASSUMPTIONS = ["integer label coordinates, plus one-decimal coordinates against integer windows", "createPeaks is driven with synthetic find_peaks property arrays"]
 
 
 @core.guarded(lambda pos, res, start, end, *a: dict(kind='vectorise', positions=pos, resolution=res, start=start, end=end))
@@ -305,6 +305,15 @@ class Space(core.Layer):
                             acc.seq += 1
                             check_vec(pos, res, start, end, acc)
         elif b == self.nvec:
+            # one-decimal label coordinates (what a CMAP file holds) against integer windows
+            grid = [0.3, 0.9, 1.0, 2.5, 2.9, 3.0, 4.7, 5.1, 7.9]
+            for n in (1, 2, 3):
+                for pos in itertools.combinations(grid, n):
+                    for res in (1, 2, 3):
+                        for start in (-1, 0, 1, 3, 5):
+                            for end in (None, 2, 5, 8):
+                                acc.seq += 1
+                                check_vec(list(pos), res, start, end, acc)
             for r in range(4):
                 for n in range(0, self.blen + 1):
                     for v in itertools.product((0, 1), repeat=n):
